@@ -4,6 +4,8 @@ Operations of the model driver: one case line in, one answer line out.
 import SltVerif.Parser
 import SltVerif.Runner
 import SltVerif.Unparse
+import SltVerif.Include
+import SltVerif.Update
 import Driver.Codec
 import Driver.Db
 namespace Drv
@@ -149,6 +151,149 @@ def opFmt : Rd String := do
   let b := run true
   pure (if a == b then a else "TABLE-MISS")
 
+/-! ### file trees -/
+
+def readTree : Rd (Fs × Str) := do
+  let files ← listOf (do let p ← str; let c ← str; pure (p, c))
+  let root ← str
+  pure (files, root)
+
+/-- `Display for Location`: `file:line` followed by `\nat file:line` for every include site -/
+def locText (file : Str) (line : Nat) (upper : List (Str × Nat)) : Str :=
+  upper.foldl (fun acc u => acc ++ kw "\nat " ++ u.1 ++ [':'] ++ natToStr u.2)
+    (file ++ [':'] ++ natToStr line)
+
+def encLRec (r : LRec) : String :=
+  match r.record.line? with
+  | some l => s!"{encRec r.record} @ {hx (locText r.file l r.upper)}"
+  | none => encRec r.record
+
+def includeFuel (fs : Fs) : Nat := fs.length + 2
+
+def encIFail : IFail → String
+  | .parse (.err k l) file upper => s!"err {perrKindStr k} {hx (locText file l upper)}"
+  | .parse (.panic _) _ _ => "panic"
+  | .notFound file upper => s!"err fileNotFound {hx (locText file 0 upper)}"
+  | .emptyInclude file line upper => s!"err emptyIncludeFile {hx (locText file line upper)}"
+  | .outOfFuel => "unsupported"
+
+def allPassEnv : Env DbState :=
+  dbEnv { engine := [], makeFail := [], rules := [], dflt := .complete 0, cmdRules := [],
+          cmdDflt := .exit 0 [] } (fun _ s => .ok s) (fun _ _ => false)
+
+def encTrace (t : List Ev) : String :=
+  let evs := t.filter (fun e => !isShutdown e)
+  evs.foldl (fun acc e => acc ++ " " ++ encEv e) s!"{evs.length}"
+
+def opInclude : Rd String := do
+  let (fs, root) ← readTree
+  let valid ← listOf pairSB
+  let run (dflt : Bool) : String :=
+    let pcfg : PCfg :=
+      { regexValid := fun s => (lookup2 valid s).getD dflt, fromChar := ColT.fromCharDefault }
+    match parseFile pcfg fs (includeFuel fs) root [] with
+    | .error e => encIFail e
+    | .ok lrecs =>
+      let head := lrecs.foldl (fun acc r => acc ++ " | " ++ encLRec r) s!"ok {lrecs.length}"
+      -- execution order: run the spliced records against an always-succeeding database
+      let cfg : RCfg := { labels := [], strictCols := false }
+      let w0 : World DbState := { db := {} }
+      -- failure locations are reported with the record's own file and chain
+      let rec go (w : World DbState) : List LRec → World DbState × String
+        | [] => (w, "ok")
+        | lr :: rest =>
+          if lr.record.isHalt then (w, "ok") else
+          let a := runRecord allPassEnv cfg w lr.record
+          match a.2 with
+          | .pass => go a.1 rest
+          | .fail k _ => (a.1, s!"failed {hx (locText lr.file (lr.record.line?.getD 0) lr.upper)} {failKindStr k}")
+          | .unreachable => (a.1, "crashed")
+      let r := go w0 lrecs
+      s!"{head} ;; {r.2} {encTrace r.1.trace}"
+  let a := run false
+  let b := run true
+  pure (if a == b then a else "TABLE-MISS")
+
+/-- lower-case hex MD5 of a file content, as the harness fingerprints snapshots
+    (`format!("{:x}", u128)`: no leading zeros) -/
+def stripZeros : Str → Str
+  | '0' :: rest => if rest.isEmpty then ['0'] else stripZeros rest
+  | s => s
+
+def fingerprint (c : Str) : Str := stripZeros (md5Hex c)
+
+def isRunEv : UEv → Bool
+  | .db (.run ..) => true
+  | _ => false
+
+/-- prefixes of the event list that end right before each database request -/
+def prefixesBeforeRuns (evs : List UEv) : List (List UEv) :=
+  let rec go (acc : List UEv) : List UEv → List (List UEv)
+    | [] => []
+    | e :: rest => if isRunEv e then acc :: go (acc ++ [e]) rest else go (acc ++ [e]) rest
+  go [] evs
+
+def dbEvents (evs : List UEv) : List Ev :=
+  evs.filterMap (fun e => match e with | .db x => some x | .fs _ => none)
+
+def opUpdate : Rd String := do
+  let strict ← bool
+  let sep ← str
+  let threshold ← nat
+  let labels ← listOf str
+  let (fs, root) ← readTree
+  let valid ← listOf pairSB
+  let rmatches ← listOf tripleSSB
+  let db ← readDb
+  let kTok ← tok
+  if kTok != "K" then throw "expected K"
+  let crashTok ← tok
+  let crashAt : Option Nat := crashTok.toNat?
+  let run (dflt : Bool) : String :=
+    let pcfg : PCfg :=
+      { regexValid := fun s => (lookup2 valid s).getD dflt, fromChar := ColT.fromCharDefault }
+    let encFiles (st : FsState) : String :=
+      fs.foldl (fun acc f => acc ++ s!" {hx f.1} {hx ((getFile st.files f.1).getD [])}") s!"F {fs.length}"
+    let st0 : FsState := { files := fs, temps := [] }
+    match parseFile pcfg fs (includeFuel fs) root [] with
+    | .error .outOfFuel => "unsupported"
+    | .error _ => s!"err {encFiles st0} L 0 S 0 T 0"
+    | .ok lrecs =>
+      let recs := lrecs.map (·.record)
+      if hasSubstOn recs then "unsupported" else
+      let rm := fun re t => (lookupPair rmatches re t).getD dflt
+      let E := dbEnv db (fun _ s => .ok s) rm
+      let cfg : RCfg := { labels := labels, strictCols := strict }
+      let uc : UCfg := { sep := sep, strictCols := strict, regexMatch := rm }
+      let w0 : World DbState := { db := {}, threshold := threshold }
+      let fin := updateFile E cfg uc false w0 root recs
+      if fin.crashed then "panic" else
+      let pres := prefixesBeforeRuns fin.evs
+      let snap (evs : List UEv) : String :=
+        let st := applyFsOps st0 (fsOpsOf evs)
+        hx (joinWith [','] (fs.map (fun f => fingerprint ((getFile st.files f.1).getD []))))
+      match crashAt with
+      | some k =>
+        if h : k < pres.length then
+          -- the driver panics at its k-th request: everything before it happened
+          let evs := pres[k]
+          let st := applyFsOps st0 (fsOpsOf evs)
+          let temps := (st.temps.map (fun t => t.1 ++ kw ".temp")).mergeSort strLe
+          let snaps := (pres.take (k + 1)).foldl (fun acc p => acc ++ " " ++ snap p) s!"S {k + 1}"
+          let left := temps.foldl (fun acc t => acc ++ " " ++ hx t) s!"L {temps.length}"
+          s!"panic {encFiles st} {left} {snaps} T {encTrace (dbEvents evs)}"
+        else
+          let st := applyFsOps st0 (fsOpsOf fin.evs)
+          let snaps := pres.foldl (fun acc p => acc ++ " " ++ snap p) s!"S {pres.length}"
+          s!"ok {encFiles st} L 0 {snaps} T {encTrace (dbEvents fin.evs)}"
+      | none =>
+        let st := applyFsOps st0 (fsOpsOf fin.evs)
+        let snaps := pres.foldl (fun acc p => acc ++ " " ++ snap p) s!"S {pres.length}"
+        s!"ok {encFiles st} L 0 {snaps} T {encTrace (dbEvents fin.evs)}"
+  let a := run false
+  let b := run true
+  pure (if a == b then a else "TABLE-MISS")
+
 def dispatchOp (line : String) : String :=
   match line.splitOn " " with
   | [] => "bad-op"
@@ -158,6 +303,8 @@ def dispatchOp (line : String) : String :=
       | "script" => opScript.run rest
       | "parse" => opParse.run rest
       | "fmt" => opFmt.run rest
+      | "include" => opInclude.run rest
+      | "update" => opUpdate.run rest
       | _ => .error s!"unknown op {op}"
     match r with
     | .ok (out, []) => out
